@@ -30,14 +30,14 @@ def run(ctx):
         cq = os.path.join(wd, 'coq_mut')
         shutil.rmtree(cq, ignore_errors=True)
         os.makedirs(cq)
-        for f in ('GenCli.v', 'DispatchProofs.v', 'Properties_C19.v'):
+        for f in ('GenCli.v', 'DispatchSpec.v', 'CliDispatchProofs.v', 'PyxDispatchProofs.v', 'Properties_C19.v'):
             shutil.copy(os.path.join(vf.COQ, f), cq)
         code = ("import sys; sys.path.insert(0, %r); import translate; "
                 "open(%r, 'w').write(translate.gen_pyx(%r))" % (os.path.join(vf.VERIF, 'tools'), os.path.join(cq, 'GenPyx.v'), scratch))
         rc, out = vf.sh(['python3', '-c', code])
         ok = rc == 0
         if ok:
-            for f in ('GenCli', 'GenPyx', 'DispatchProofs', 'Properties_C19'):
+            for f in ('GenCli', 'GenPyx', 'DispatchSpec', 'CliDispatchProofs', 'PyxDispatchProofs', 'Properties_C19'):
                 rc, out = vf.sh(['coqc', '-Q', '.', 'MT', f + '.v'], cwd=cq, timeout=300)
                 if rc != 0:
                     ok = False
